@@ -120,6 +120,7 @@ let string_of_site = function
   | HBigRatNil -> "bigrat-nil" | HUnhashable -> "unhashable"
   | HRefNilSet -> "ref-nil-set" | HRefNilKind -> "ref-nil-kind" | HObjMapField -> "objmap-field"
   | HObjMapKey -> "objmap-key" | HClientCount -> "client-count" | HArrayNeg -> "array-neg"
+  | HBigExp -> "big-exp"
 
 let string_of_bigk = function BInt -> "bigint" | BFloat -> "bigfloat" | BRat -> "bigrat"
 let string_of_okind = function
@@ -127,6 +128,7 @@ let string_of_okind = function
   | OInt b -> "i" ^ string_of_int (int_of_n b) | OUint b -> "u" ^ string_of_int (int_of_n b)
   | OBool -> "bool" | OBig b -> string_of_bigk b
   | OUuid -> "uuid" | OUuidB -> "uuidb" | OUuidP -> "uuidp" | OTime -> "time"
+  | OExpInt -> "intexp" | OExpRat -> "ratexp"
 
 let string_of_ek = function
   | KEOF -> "eof" | KUtf8 -> "utf8" | KCast -> "cast" | KDecode -> "decode" | KParse -> "parse"
